@@ -21,7 +21,7 @@ REQUIRED_ANCHORS = {"all": ["runs_completed", "clash_restarts", "no_addresses_le
                             "program_failure_raised", "Frame.__setitem__"]}
 SHARD_TIMEOUT = {"quick": 600, "thorough": 3000}
 
-SCHEDULES = ["uniform", "tiny", "extremes", "pair_clash", "reuse_earlier", "withdrawn_redraw", "dense"]
+SCHEDULES = ["uniform", "tiny", "extremes", "pair_clash", "reuse_earlier", "withdrawn_redraw", "dense", "long_clash"]
 
 
 def plan(tier, seed):
@@ -38,6 +38,7 @@ class Scheduler:
         self.round_of = {}
         self.log = []
         self.k = r.randint(1, 3)          # rounds during which clashes are forced
+        self.k_long = r.choice([7, 8, 9, 10])   # "long_clash": two units keep drawing the same value for this many rounds
         self.space = [r.getrandbits(24) for _ in range(r.randint(2, 4))]
         self.used = []                    # values drawn in earlier rounds
         self.pairs = {}
@@ -79,6 +80,12 @@ class Scheduler:
                 v = self.pairs.setdefault(key, r.getrandbits(24)) if r.random() < 0.5 else None
         elif kind == "dense":
             v = r.randrange(0, 256) if rnd < self.k else None
+        elif kind == "long_clash":
+            # an unlucky (or poorly seeded) pair: identical draws round after round, then they diverge - every unit must
+            # still end up addressed, however long that took
+            idx = self.units.index(unit) if unit in self.units else 9
+            if rnd < self.k_long and idx < 2:
+                v = self.pairs.setdefault(("L", rnd), r.getrandbits(24))
         if v is None:
             # fresh value, distinct from everything drawn in this round so that clashes end
             while True:
@@ -96,6 +103,8 @@ def make_case(r):
     kind = r.choice(SCHEDULES)
     readdress = r.random() < 0.5
     dry_run = r.random() < 0.15
+    if kind == "long_clash":
+        n_units = r.randint(2, 6)
     pre = []
     for i in range(n_units):
         c = r.random()
